@@ -54,6 +54,25 @@ pub fn run(args: &[String], seed: u64, count: u64, w: &mut dyn Write) {
             }
             None => false,
         }),
+        "fxcache" => {
+            let mut r = Rng::new(seed ^ 0xcac4_e000);
+            for i in 0..count {
+                let mut cr = r.fork();
+                let c = crate::fxcache::gen_case(&mut cr);
+                let mut s = String::new();
+                crate::fxcache::run_case(&format!("H{}-{}", seed, i), &c, &mut s);
+                w.write_all(s.as_bytes()).unwrap();
+            }
+        }
+        "fxcache-replay" => replay_stdin(|lines, id| match crate::fxcache::parse_case(lines) {
+            Some(c) => {
+                let mut s = String::new();
+                crate::fxcache::run_case(id, &c, &mut s);
+                w.write_all(s.as_bytes()).unwrap();
+                true
+            }
+            None => false,
+        }),
         f => {
             eprintln!("unknown family {}", f);
             std::process::exit(2);
